@@ -848,9 +848,9 @@ func c18(c *wk.Ctx) {
 			jobs = append(jobs, job{name, n * p / parts, n * (p + 1) / parts, file})
 		}
 	}
-	split("c18script", c.N(2400, 24000), 6, false)
+	split("c18script", c.N(2400, 120000), 6, false)
 	split("c18script", c.N(24, 240), 3, true)
-	split("c18hist", c.N(150, 1500), 5, false)
+	split("c18hist", c.N(150, 6000), 5, false)
 	split("c18hist", c.N(4, 40), 1, true)
 	wk.Parallel(len(jobs), 15, func(i int) {
 		j := jobs[i]
